@@ -10,6 +10,14 @@ package imagefam
 // never-mentioned path) and on a recursive walk from the root, in both directions. It then
 // unpacks the same v1.Image with unpack.UnpackSquashed and compares the regular files.
 //
+// Mode of an entry: the complete fs.FileMode that Stat, the Stat of an opened handle and the
+// Info() of a listing entry report for a regular file or an explicitly carried directory has
+// to be the type bit plus what the newest tar header says: permission bits 0777 and the
+// POSIX special bits 04000 / 02000 / 01000 as fs.ModeSetuid / fs.ModeSetgid / fs.ModeSticky
+// (the mapping of archive/tar's Header.FileInfo().Mode(), which is what the loader stores).
+// The generator draws plain modes, odd permission sets (0000, 0111, 0777, ...) and special
+// bits alone and combined on files and on directory entries (classes mode_*).
+//
 // Tolerances (each measured as a class, none silently dropped):
 //   - Open of an absent path may return a handle whose Stat and Read fail with not-exist
 //     (that defect belongs to C17: c17.open_whiteout); Stat and the listings must still agree.
@@ -195,6 +203,7 @@ func c04Features(cs c04Case) (finding map[string]bool, labels map[string]bool, a
 	c04DroppedLabels(cs, labels)
 	cs, _ = cs.effective()
 	views := overlay.Views(cs.Image.Layers)
+	c04ModeLabels(cs, views, labels)
 	// removedAt[P] = true once P (a directory with children) was removed by a later layer.
 	removedDirs := map[string]int{}
 	var fileToImplicit []string
@@ -299,7 +308,7 @@ func c04Features(cs c04Case) (finding map[string]bool, labels map[string]bool, a
 				if ak, explicit := puts[a]; explicit && ak == tarimg.KindDir {
 					if putOrder[a] > putOrder[p] {
 						labels["dir_entry_after_child"] = true
-						if dirPerm(l, a) != 0 {
+						if dirModeBits(l, a) != 0 {
 							finding[clsImplicitDirMode] = true
 						}
 					}
@@ -313,7 +322,7 @@ func c04Features(cs c04Case) (finding map[string]bool, labels map[string]bool, a
 					labels["nondir_to_implicit_dir"] = true
 					fileToImplicit = append(fileToImplicit, a)
 				}
-				if n, ok := views[k][a]; ok && n.Kind == overlay.Dir && !n.Implicit && n.Mode.Perm() != 0 {
+				if n, ok := views[k][a]; ok && n.Kind == overlay.Dir && !n.Implicit && n.ModeBits() != 0 {
 					// explicit below (not removed by this layer), implicit here
 					finding[clsImplicitDirMode] = true
 				}
@@ -334,13 +343,13 @@ func c04Features(cs c04Case) (finding map[string]bool, labels map[string]bool, a
 		for _, m := range markers {
 			for a := m.dir; a != "/" && a != "."; a = path.Dir(a) {
 				if ak, explicit := puts[a]; explicit {
-					if ak == tarimg.KindDir && putOrder[a] > m.idx && dirPerm(l, a) != 0 {
+					if ak == tarimg.KindDir && putOrder[a] > m.idx && dirModeBits(l, a) != 0 {
 						labels["dir_entry_after_child"] = true
 						finding[clsImplicitDirMode] = true
 					}
 					continue
 				}
-				if n, ok := views[k][a]; ok && n.Kind == overlay.Dir && !n.Implicit && n.Mode.Perm() != 0 {
+				if n, ok := views[k][a]; ok && n.Kind == overlay.Dir && !n.Implicit && n.ModeBits() != 0 {
 					finding[clsImplicitDirMode] = true
 				}
 			}
@@ -507,10 +516,80 @@ func c04DroppedLabels(cs c04Case, labels map[string]bool) {
 	}
 }
 
-func dirPerm(l tarimg.Layer, p string) fs.FileMode {
+// dirModeBits returns the permission and special bits of the entry the layer carries for p:
+// what an implicit stand-in for the directory (mode d---------) fails to report when non-zero.
+// c04ModeLabels counts the shapes of header modes (of the entries the loader keeps) and what
+// becomes of special bits in the views.
+func c04ModeLabels(cs c04Case, views []overlay.View, labels map[string]bool) {
+	for k, l := range cs.Image.Layers {
+		lower := overlay.NewView()
+		if k > 0 {
+			lower = views[k-1]
+		}
+		for _, e := range l.Entries {
+			op := overlay.Interpret(e)
+			if op.Kind != overlay.OpPut || (e.Kind != tarimg.KindFile && e.Kind != tarimg.KindDir) {
+				continue
+			}
+			kind := "file"
+			if e.Kind == tarimg.KindDir {
+				kind = "dir"
+			}
+			sp := e.Mode & 0o7000
+			switch sp {
+			case 0:
+			case tarimg.TarSetuid:
+				labels["mode_setuid_"+kind] = true
+			case tarimg.TarSetgid:
+				labels["mode_setgid_"+kind] = true
+			case tarimg.TarSticky:
+				labels["mode_sticky_"+kind] = true
+			default:
+				labels["mode_special_combined_"+kind] = true
+			}
+			if sp != 0 {
+				labels["mode_special_"+kind] = true
+			}
+			switch e.Mode & 0o777 {
+			case 0:
+				labels["mode_perm_0000_"+kind] = true
+			case 0o111:
+				labels["mode_perm_0111_"+kind] = true
+			case 0o777:
+				labels["mode_perm_0777_"+kind] = true
+			}
+			// the entry lands on a node of the same kind whose special bits differ
+			if n, ok := lower[op.Path]; ok && string(n.Kind) == kind && !n.Implicit {
+				ns := tarimg.SpecialBits(e.Mode)
+				switch {
+				case n.Special != 0 && ns == 0:
+					labels["mode_special_cleared_by_later_layer_"+kind] = true
+				case n.Special == 0 && ns != 0:
+					labels["mode_special_set_by_later_layer_"+kind] = true
+				case n.Special != ns:
+					labels["mode_special_changed_by_later_layer_"+kind] = true
+				}
+			}
+		}
+	}
+	for i, v := range views {
+		for _, n := range v {
+			if n.Special == 0 {
+				continue
+			}
+			labels["view_has_special_"+string(n.Kind)] = true
+			if n.Layer < i {
+				// carried over from an earlier layer into a later view
+				labels["view_inherits_special_"+string(n.Kind)] = true
+			}
+		}
+	}
+}
+
+func dirModeBits(l tarimg.Layer, p string) fs.FileMode {
 	for _, e := range l.Entries {
 		if op := overlay.Interpret(e); op.Kind == overlay.OpPut && op.Path == p {
-			return fs.FileMode(e.Mode).Perm()
+			return tarimg.FileModeBits(e.Mode)
 		}
 	}
 	return 0
@@ -564,7 +643,7 @@ func statAgainst(fi fs.FileInfo, err error, w want) error {
 		if err != nil {
 			return fmt.Errorf("fails with %q, expected %v", err, w)
 		}
-		if merr := infoMatchesNode(fi, w.r.Node); merr != nil {
+		if merr := c04InfoMatchesNode(fi, w.r.Node); merr != nil {
 			return fmt.Errorf("%w (expected %v)", merr, w)
 		}
 	case overlay.NotExist:
@@ -586,6 +665,27 @@ func statAgainst(fi fs.FileInfo, err error, w want) error {
 		if !isDepthOrCycle(err) && !(w.r.Boundary && errors.Is(err, fs.ErrNotExist)) {
 			return fmt.Errorf("fails with %q, expected a symlink depth/cycle error", err)
 		}
+	}
+	return nil
+}
+
+// c04InfoMatchesNode is infoMatchesNode (kind, size, permission bits) plus the rest of the
+// mode: a regular file and a directory that some layer carried an entry for report exactly
+// type bit | permission bits | setuid/setgid/sticky flags of the newest header (implicit
+// parents have no defined mode beyond their kind).
+func c04InfoMatchesNode(fi fs.FileInfo, n *overlay.Node) error {
+	if err := infoMatchesNode(fi, n); err != nil {
+		return err
+	}
+	if n.Kind == overlay.Dir && n.Implicit {
+		return nil
+	}
+	const special = fs.ModeSetuid | fs.ModeSetgid | fs.ModeSticky
+	if got := fi.Mode() & special; got != n.Special {
+		return fmt.Errorf("has mode %v (special bits %v), the newest tar entry for it (layer %d) has header mode %05o = %v", fi.Mode(), got, n.Layer, tarimg.TarMode(n.ModeBits()), n.FileMode())
+	}
+	if fi.Mode() != n.FileMode() {
+		return fmt.Errorf("has mode %v, the newest tar entry for it (layer %d) has header mode %05o = %v", fi.Mode(), n.Layer, tarimg.TarMode(n.ModeBits()), n.FileMode())
 	}
 	return nil
 }
@@ -644,7 +744,7 @@ func compareView(fsys scalibrfs.FS, vp viewPair, queries []string, st *c04Stats)
 			if serr != nil {
 				return fmt.Errorf("returns a handle whose Stat fails with %q, expected %v", serr, w)
 			}
-			if merr := infoMatchesNode(fi, w.r.Node); merr != nil {
+			if merr := c04InfoMatchesNode(fi, w.r.Node); merr != nil {
 				return fmt.Errorf("returns a handle that %w (expected %v)", merr, w)
 			}
 			if w.r.Node.Kind == overlay.File {
@@ -765,7 +865,7 @@ func compareListing(ents []fs.DirEntry, dir string, vp viewPair) error {
 				return fmt.Errorf("lists symlink %q whose Info() has mode %v without the symlink flag", e.Name(), fi.Mode())
 			}
 		default:
-			if merr := infoMatchesNode(fi, n); merr != nil {
+			if merr := c04InfoMatchesNode(fi, n); merr != nil {
 				return fmt.Errorf("lists %q whose Info() %w", e.Name(), merr)
 			}
 		}
@@ -1096,6 +1196,39 @@ var (
 	c04Formats   = []string{"", "pax", "ustar", "gnu"}
 )
 
+// Odd permission sets and the special-bit combinations of a tar header mode.
+var (
+	c04OddPerms     = []int64{0, 0o111, 0o777, 0o007, 0o070, 0o700, 0o222, 0o001}
+	c04SpecialBits  = []int64{0o4000, 0o2000, 0o1000, 0o4000, 0o2000, 0o1000, 0o6000, 0o5000, 0o3000, 0o7000}
+	c04SpecialFiles = []int64{0o4755, 0o2755, 0o6755, 0o4711, 0o2555, 0o1644, 0o4000, 0o7777}
+	c04SpecialDirs  = []int64{0o1777, 0o2755, 0o2775, 0o3777, 0o1770, 0o4755, 0o1000, 0o7777}
+)
+
+// c04DrawMode draws the header mode of a regular file or directory entry: mostly the plain
+// everyday modes, otherwise an odd permission set, a typical special mode (04755 binary,
+// 01777 /tmp, 02775 shared directory), or any permission set combined with any non-empty
+// subset of setuid / setgid / sticky.
+func c04DrawMode(t *rapid.T, dir bool) int64 {
+	plain, typical := c04FileModes, c04SpecialFiles
+	if dir {
+		plain, typical = c04DirModes, c04SpecialDirs
+	}
+	switch w := rapid.IntRange(0, 19).Draw(t, "mode_class"); {
+	case w < 11:
+		return rapid.SampledFrom(plain).Draw(t, "mode")
+	case w < 13:
+		return rapid.SampledFrom(c04OddPerms).Draw(t, "mode_odd")
+	case w < 16:
+		return rapid.SampledFrom(typical).Draw(t, "mode_special")
+	default:
+		perm := rapid.SampledFrom(plain).Draw(t, "mode")
+		if rapid.IntRange(0, 2).Draw(t, "mode_odd_perm") == 0 {
+			perm = rapid.SampledFrom(c04OddPerms).Draw(t, "mode_odd")
+		}
+		return perm | rapid.SampledFrom(c04SpecialBits).Draw(t, "mode_bits")
+	}
+}
+
 func c04DrawTarget(t *rapid.T, lower overlay.View, from string) string {
 	to := "/" + c04DrawPath(t, lower, rapid.Bool().Draw(t, "target_exists"))
 	if rapid.Bool().Draw(t, "absolute_target") {
@@ -1162,7 +1295,7 @@ func c04DrawDropGroup(t *rapid.T, lower overlay.View, k, dropMode int, fresh *in
 		for _, a := range anc {
 			mode := int64(0o755)
 			if n, ok := lower["/"+a]; ok && n.Kind == overlay.Dir && !n.Implicit {
-				mode = int64(n.Mode.Perm())
+				mode = tarimg.TarMode(n.ModeBits())
 			}
 			out = append(out, tarimg.Entry{Kind: tarimg.KindDir, Path: a, Mode: mode, Style: style})
 		}
@@ -1274,9 +1407,9 @@ func genC04(col *ev.Collector) func(t *rapid.T) c04Case {
 					if rapid.IntRange(0, 7).Draw(t, "empty_file") != 0 {
 						content = fmt.Sprintf("L%d:%s:%s", k, p, strings.Repeat("x", rapid.IntRange(0, 24).Draw(t, "pad")))
 					}
-					e = tarimg.Entry{Kind: tarimg.KindFile, Path: p, Content: content, Mode: rapid.SampledFrom(c04FileModes).Draw(t, "mode")}
+					e = tarimg.Entry{Kind: tarimg.KindFile, Path: p, Content: content, Mode: c04DrawMode(t, false)}
 				case w < 54:
-					e = tarimg.Entry{Kind: tarimg.KindDir, Path: c04DrawPath(t, lower, false), Mode: rapid.SampledFrom(c04DirModes).Draw(t, "mode"), Slash: slash}
+					e = tarimg.Entry{Kind: tarimg.KindDir, Path: c04DrawPath(t, lower, false), Mode: c04DrawMode(t, true), Slash: slash}
 				case w < 66:
 					p := c04DrawPath(t, lower, false)
 					e = tarimg.Entry{Kind: tarimg.KindSymlink, Path: p, Target: c04DrawTarget(t, lower, p), Mode: 0o777}
@@ -1324,8 +1457,17 @@ func genC04(col *ev.Collector) func(t *rapid.T) c04Case {
 							continue
 						}
 						mode := int64(0o755)
-						if n, ok := lower["/"+a]; ok && n.Kind == overlay.Dir && !n.Implicit && rapid.IntRange(0, 3).Draw(t, "keep_mode") != 0 {
-							mode = int64(n.Mode.Perm())
+						if n, ok := lower["/"+a]; ok && n.Kind == overlay.Dir && !n.Implicit {
+							// mostly the mode the directory has below; else 0755 or a drawn one
+							switch rapid.IntRange(0, 7).Draw(t, "keep_mode") {
+							case 0:
+							case 1:
+								mode = c04DrawMode(t, true)
+							default:
+								mode = tarimg.TarMode(n.ModeBits())
+							}
+						} else if rapid.IntRange(0, 3).Draw(t, "parent_mode_drawn") == 0 {
+							mode = c04DrawMode(t, true)
 						}
 						tryAdd(tarimg.Entry{Kind: tarimg.KindDir, Path: a, Mode: mode, Style: style, Slash: slash})
 					}
@@ -1490,9 +1632,11 @@ func c04SweepLayers(layer int, withMarkers bool) []tarimg.Layer {
 	rec = func(i int) {
 		if i == len(c04SweepPaths) {
 			var l tarimg.Layer
-			fmode, dmode := int64(0o644), int64(0o755)
+			// layer 0: plain file mode, sticky directories; layer 1: setuid files, setgid
+			// directories (every replacement changes permission AND special bits)
+			fmode, dmode := int64(0o644), int64(0o1755)
 			if layer == 1 {
-				fmode, dmode = 0o600, 0o750
+				fmode, dmode = 0o4600, 0o2750
 			}
 			for j, p := range c04SweepPaths {
 				switch states[j] {
